@@ -192,6 +192,7 @@ package scanner
 //@ loop (*Scanner).Scan#1
 //@   invariant inv(s) && fileSize(s.file) == len(s.src) && unitOK(s) && s.offset >= old(s.offset)
 //@   invariant s.offset == old(s.offset) ==> s.insertSemi == old(s.insertSemi) && s.unitVal == old(s.unitVal)
+//@   invariant s.mode & ScanComments != 0 ==> s.offset == old(s.offset)
 //@   decreases len(s.src) - s.offset
 //@
 //@ func (*Scanner).InitEx
